@@ -81,8 +81,12 @@ var decodedProtected []byte
 
 func (envDec) Unmarshal(data []byte, v any) error {
 	switch p := v.(type) {
-	case *[]byte: // generateRawProtectedCBORMap: the protected bstr
-		if rt.Choose("rawprotected.bstr.err", 2) == 1 {
+	case *[]byte: // generateRawProtectedCBORMap: the protected bstr (a decoder is a function of its input: memoised)
+		if rawProtectedDecodes == 1 {
+			*p = decodedProtected
+			return nil
+		}
+		if rawProtectedDecodes == 2 || rt.Choose("rawprotected.bstr.err", 2) == 1 {
 			rawProtectedDecodes = 2
 			return rt.NewEnvError("cbor")
 		}
@@ -122,21 +126,31 @@ func stubCBORUnmarshal(data []byte, v any) error {
 	if !ok {
 		rt.Fail("unexpected cbor.Unmarshal target")
 	}
+	if rawViewAsked {
+		if rawViewErr {
+			return rt.NewEnvError("cbor")
+		}
+		*hm = theRawView
+		return nil
+	}
 	rawViewAsked = true
 	if rt.Choose("rawprotected.map.err", 2) == 1 {
 		rawViewErr = true
 		return rt.NewEnvError("cbor")
 	}
 	// both views decode the same bytes: the raw map has exactly the keys of the decoded one
-	*hm = rt.LazyMap(protectedUniverse, func(k any) (cbor.RawMessage, bool) {
+	theRawView = rt.LazyMap(protectedUniverse, func(k any) (cbor.RawMessage, bool) {
 		if _, present := theProtected[k]; !present {
 			return nil, false
 		}
 		rawIndex = append(rawIndex, labelName(k))
 		return cbor.RawMessage{byte(len(rawIndex) - 1)}, true
 	})
+	*hm = theRawView
 	return nil
 }
+
+var theRawView map[any]cbor.RawMessage
 
 // (*cbor.RawTag).UnmarshalCBOR(raw item): error iff the item is not tagged; otherwise its tag number.
 // The decoder guarantees: the decoded value is a time.Time iff the item carries tag 0 or 1 (DecTagRequired).
@@ -155,8 +169,14 @@ func stubRawTag(t *cbor.RawTag, data []byte) error {
 	return nil
 }
 
+var detBstrAsked, detBstrErr bool
+
 func stubDetBstr(data cbor.RawMessage) (cbor.RawMessage, error) {
-	if rt.Choose("detbstr.err", 2) == 1 {
+	if !detBstrAsked {
+		detBstrAsked = true
+		detBstrErr = rt.Choose("detbstr.err", 2) == 1
+	}
+	if detBstrErr {
 		return nil, rt.NewEnvError("detbstr")
 	}
 	return data, nil
@@ -272,7 +292,9 @@ var chainTimeNil bool
 func sumChainCOSE(chain []*x509.Certificate, t *time.Time) error {
 	chainCalls++
 	chainArgs, chainTimeNil = chain, t == nil
-	chainVerdict = rt.Bool(rt.Name("chain.ok"))
+	if chainCalls == 1 { // a function of the chain: the same verdict on every call
+		chainVerdict = rt.Bool("chain.ok")
+	}
 	if chainVerdict {
 		return nil
 	}
